@@ -43,6 +43,11 @@ class C06(Prop):
         return H.case_nontrivial(case)
 
     def run_case(self, case):
+        # evaluated in an interpreter with a fixed string-hash seed (see dp_harness.dispatch) so that replay files reproduce
+        from ..bounded import dp_harness as H
+        return H.dispatch('C06', case, self.run_case_here)
+
+    def run_case_here(self, case):
         from ..bounded import dp_harness as H
         r1, r2, rows, rows2 = H.run_pair(case)
         info = H.describe_pair(case, r1, r2)
